@@ -20,6 +20,7 @@
    NOT mechanised: that such a KKT point is the unique optimum of the LogDet problem (strict convexity). *)
 From Coq Require Import List Reals Lra Psatz.
 From ML Require Import Ops Vec VecR MatR PSD ITML C11Proof C11Fixed C11Conv C11Src.
+From ML Require Import PinsC11.
 From MLgen Require Import Src_itml.
 Import ListNotations.
 Open Scope R_scope.
@@ -152,3 +153,7 @@ Print Assumptions C11_source.
 
 (* the skeleton of _fit around the loop is the one the model assumes *)
 Definition C11_source_skeleton := itml_skeleton_ok.
+
+(* text-level tie: the functions this property's hand-written model and harness were written from are unchanged
+   (digests regenerated from /repo on every run; Proofs/PinsC11.v) *)
+Definition C11_source_pins := pins_C11_ok.
